@@ -272,6 +272,38 @@ def r13_5(facts, res, rule="R13-5"):
                             f["file"], f["line"], {}))
 
 
+OWN_ERRORS = {
+    # default methods of xml_info::HasChildren: error variants they may construct themselves (everything else comes from
+    # insert_by_id, which refuses wrong kinds and cycles before it changes anything)
+    "xml_info::HasChildren::append": (set(), "appending needs no reference child: nothing can be `not found`"),
+    "xml_info::HasChildren::insert_before": ({"OufOfIndex"}, "the reference child is not a child"),
+    "xml_info::HasChildren::insert_after": ({"OufOfIndex"}, "the reference child is not a child"),
+    "xml_info::HasChildren::delete": (set(), "answers None for a node that is not a child"),
+}
+
+
+def r13_7(facts, res, rule="R13-7"):
+    """The core insert / delete operations fail only for the reasons the DOM mapping knows (xml_dom maps OufOfIndex to
+    NotFoundErr and everything else to HierarchyRequestErr): an error constructed in append itself - e.g. because the parent
+    has no place in the order vector - makes append_child fail on a legitimate call."""
+    from facts import walk
+    st = res.rule(rule, instances=0)
+    for path, (allowed, why) in OWN_ERRORS.items():
+        f = facts.fn(path)
+        st["instances"] += 1
+        made = set()
+        for n in walk(f["body"]):
+            if n.get("k") in ("Path", "Call"):
+                pth = str(n.get("path") or n.get("f", {}).get("path") or "")
+                if "error::Error::" in pth and str(n.get("res") or n.get("f", {}).get("res", "")).startswith("Ctor"):
+                    made.add(pth.split("::")[-1])
+        extra = made - allowed
+        res.oblige(1, not extra)
+        if extra:
+            res.add(Finding(rule, path.split("::")[-1], "%s constructs %s itself (allowed: %s - %s): a call that DOM Level 1 permits fails"
+                            % (path, sorted(extra), sorted(allowed) or "none", why), f["file"], f["line"], {}))
+
+
 def run(facts, tier):
     res = Result("C13")
     res.explanation = (
@@ -298,6 +330,7 @@ def run(facts, tier):
     r13_3_wrong_doc_first(facts, res)
     r13_3c_everywhere(facts, res)
     r13_5(facts, res)
+    r13_7(facts, res)
     # index-size errors of the data setters: the bounds guards of C16 (offset > length raises, a count past the end is clipped)
     from props import c16
     c16.guard_rules(facts, res, "R13-6", "R13-6c")
